@@ -118,7 +118,17 @@ pub fn exec(toks: &[&str]) -> String {
         }
         ["ip-enc", a] => {
             use bcder::encode::Values;
-            match ip_chain(a) { Some(c) => hex(c.encode_ref().to_captured(bcder::Mode::Der).as_slice()), None => "bad-op".into() }
+            match ip_chain(a) {
+                Some(c) => {
+                    let enc = c.encode_ref().to_captured(bcder::Mode::Der);
+                    let back = match bcder::Mode::Der.decode(enc.as_slice(), |cons| IpBlocks::take_from_with_family(cons, rpki::repository::resources::AddressFamily::Ipv6)) {
+                        Err(_) => "rt-err",
+                        Ok(d) => if d == c { "rt-same" } else { "rt-differs" },
+                    };
+                    format!("{} {}", hex(enc.as_slice()), back)
+                }
+                None => "bad-op".into(),
+            }
         }
         ["as-der", hx] => {
             // AsResources::take_from on the extension value
@@ -134,7 +144,13 @@ pub fn exec(toks: &[&str]) -> String {
             use bcder::encode::Values;
             let r = if *what == "I" { AsResources::inherit() } else {
                 match as_chain(what) { Some(c) => AsResources::blocks(c), None => return "bad-op".into() } };
-            hex(r.encode().to_captured(bcder::Mode::Der).as_slice())
+            let enc = r.clone().encode().to_captured(bcder::Mode::Der);
+            // … and back through the library's own reader
+            let back = match bcder::Mode::Der.decode(enc.as_slice(), AsResources::take_from) {
+                Err(_) => "rt-err",
+                Ok(d) => if d == r { "rt-same" } else { "rt-differs" },
+            };
+            format!("{} {}", hex(enc.as_slice()), back)
         }
         ["as-parse", hx] => {
             let t = String::from_utf8(unhex(hx).unwrap()).unwrap();
